@@ -268,6 +268,26 @@ func (h *harness) takeClone(c fox.Context, e *exp, when string) {
 	h.mu.Lock()
 	h.clones = append(h.clones, savedClone{c: cl, e: e, status: w.Status(), size: w.Size(), written: w.Written(), when: when})
 	h.mu.Unlock()
+	// the handler goes on editing its own request in place (a header added for an upstream call, a path rewritten before
+	// handing the request to a file server): the copy keeps what it was made with. The edits are undone straight away.
+	if req := c.Request(); req != nil && req.URL != nil {
+		oldTok, oldPath := req.Header.Get("X-Tok"), req.URL.Path
+		req.Header.Set("X-Tok", "edited-after-the-clone")
+		req.Header.Set("X-Added-Later", "1")
+		req.URL.Path = "/edited/after/the/clone"
+		if got := cl.Header("X-Tok"); got != oldTok {
+			h.fail("clone taken %s the write [token %s]: after the handler edited its own request, the copy's Header(X-Tok) reads %q, it was made with %q", when, e.tok, got, oldTok)
+		}
+		if got := cl.Header("X-Added-Later"); got != "" {
+			h.fail("clone taken %s the write [token %s]: a header the handler added to its own request afterwards shows in the copy: %q", when, e.tok, got)
+		}
+		if got := cl.Path(); got != oldPath {
+			h.fail("clone taken %s the write [token %s]: after the handler rewrote its own request path, the copy's Path() reads %q, it was made with %q", when, e.tok, got, oldPath)
+		}
+		req.Header.Set("X-Tok", oldTok)
+		req.Header.Del("X-Added-Later")
+		req.URL.Path = oldPath
+	}
 }
 
 // respond is the body of every handler we install.
